@@ -92,6 +92,9 @@ type DownState struct {
 	CloseT    int64
 	Resumes   []int
 	Links     []int
+	// ResumeConflicts: remaining RESUME_REQUEST_CONFLICT answers (the broker has not yet noticed that the stream's old
+	// connection is gone - "ask again")
+	ResumeConflicts int
 }
 
 type DownAckRec struct {
@@ -693,6 +696,10 @@ func (lc *LinkCtx) ResumeDownstream(t *message.DownstreamResumeRequest) *message
 		return &message.DownstreamResumeResponse{RequestID: t.RequestID, ResultCode: message.ResultCodeStreamNotFound, ResultString: "unknown stream"}
 	}
 	ds.Resumes = append(ds.Resumes, lc.L.ID)
+	if ds.ResumeConflicts > 0 {
+		ds.ResumeConflicts--
+		return &message.DownstreamResumeResponse{RequestID: t.RequestID, ResultCode: message.ResultCodeResumeRequestConflict, ResultString: "conflict"}
+	}
 	ds.Links = append(ds.Links, lc.L.ID)
 	lc.mu.Lock()
 	lc.downs[t.DesiredStreamIDAlias] = ds
